@@ -107,6 +107,30 @@ pub fn is_big_number(tok: &[u8]) -> bool {
     }
 }
 
+/// Does a mutation leave a *changed* line on which a magnitude-consuming
+/// construct (address, reservation, alignment, bank geometry, shift, slice,
+/// size cast, repetition) meets a string literal or a number above 16 bits?
+/// Such mutants are redrawn: what the assembler does with absurd magnitudes
+/// is another property's subject (C19).
+pub fn magnitude_risky(old: &[u8], new: &[u8]) -> bool {
+    let old_lines: std::collections::BTreeSet<&[u8]> = old.split(|b| *b == b'\n').collect();
+    for line in new.split(|b| *b == b'\n') {
+        if old_lines.contains(line) {
+            continue;
+        }
+        let text = String::from_utf8_lossy(line).to_lowercase();
+        let consumer = ["#addr", "#res", "#align", "#outp", "#size", "#bits", "#labelalign", "#fill", "<<", ">>", "[", "`", "addr", "outp", "size"].iter().any(|k| text.contains(k));
+        if !consumer {
+            continue;
+        }
+        let toks = tokens(line);
+        if toks.iter().any(|t| is_string(t) || is_big_number(t)) {
+            return true;
+        }
+    }
+    false
+}
+
 pub fn is_string(tok: &[u8]) -> bool {
     tok.first() == Some(&b'"')
 }
